@@ -451,6 +451,29 @@ func (in *Interp) run(fr *Frame) (result Value) {
 	b := fr.fn.Blocks[0]
 	for {
 		var next *ssa.BasicBlock
+		// phi nodes of a block are a parallel assignment: read all incoming values before writing any
+		if prev != nil && len(b.Instrs) > 0 {
+			if _, isPhi := b.Instrs[0].(*ssa.Phi); isPhi {
+				pi := 0
+				for i, p := range b.Preds {
+					if p == prev {
+						pi = i
+						break
+					}
+				}
+				var vals []Value
+				for _, ins := range b.Instrs {
+					ph, ok := ins.(*ssa.Phi)
+					if !ok {
+						break
+					}
+					vals = append(vals, in.get(fr, ph.Edges[pi]))
+				}
+				for k, v := range vals {
+					fr.env[b.Instrs[k].(*ssa.Phi)] = v
+				}
+			}
+		}
 		for _, ins := range b.Instrs {
 			in.steps++
 			cur = ins
@@ -459,12 +482,7 @@ func (in *Interp) run(fr *Frame) (result Value) {
 			}
 			switch x := ins.(type) {
 			case *ssa.Phi:
-				for i, p := range b.Preds {
-					if p == prev {
-						fr.env[x] = in.get(fr, x.Edges[i])
-						break
-					}
-				}
+				// assigned above
 			case *ssa.Jump:
 				next = b.Succs[0]
 			case *ssa.If:
